@@ -26,6 +26,25 @@ EDITS = {
 }
 
 
+def check_norm_inf(rep, pdb, path, key):
+    fn = pdb.fn(path)
+    rule = "norm_inf is an arg-max fold over |v_i| starting from |v_0| and ranging 1..size (no element skipped)"
+    if fn is None:
+        rep.missing(key, rule, "not found")
+        return
+    ctx = Ctx.for_fn(pdb, fn)
+    lps = [n for n in walk(fn["body"]) if n.get("k") == "For"]
+    am = find_argmax(pdb, ctx, lps[0]) if len(lps) == 1 else None
+    ok = am is not None
+    if ok:
+        cur = _resolve(ctx, am.cur)
+        bb = ctx.binds.get(am.best[1])
+        init = ctx.term(bb.init) if bb is not None and bb.init is not None else None
+        ok = am.orient_ok and am.best_gets_cur and am.magnitude_ok and is_abs_term(cur) and cur[2] == ("idx", VEC0, am.var) and am.lo == num(1) and am.hi == N0 and \
+            init is not None and is_abs_term(init) and init[2] == ("idx", VEC0, num(0)) and ctx.term(fn["body"]["expr"]) == am.best
+    rep.add(key, rule, ok, fn["body"], am.detail if am else "no (total) arg-max loop", where=loc(fn["body"]))
+
+
 def run(rep, pdb, tier):
     n_el = 0
     for fn in pdb.local_fns():
@@ -169,23 +188,7 @@ def run(rep, pdb, tier):
                 ok = ok and t[0] == "call" and str(t[1]).endswith("powf") and t[2] == e.target and t[3] == ("op", "/", num(1), P(1))
         rep.add("abs-norms/%s" % name, rule, ok, fn["body"], "", where=loc(fn["body"]))
     for path in ("%s::norm_inf" % V64, "vector::Vector<complex::Complex<f64>>::norm_inf"):
-        fn = pdb.fn(path)
-        key = "abs-norms/norm_inf/%s" % ("f64" if "f64>::norm_inf" in path and "Complex" not in path else "Cmplx")
-        rule = "norm_inf is an arg-max fold over |v_i| starting from |v_0| and ranging 1..size"
-        if fn is None:
-            rep.missing(key, rule, "not found")
-            continue
-        ctx = Ctx.for_fn(pdb, fn)
-        lps = [n for n in walk(fn["body"]) if n.get("k") == "For"]
-        am = find_argmax(pdb, ctx, lps[0]) if len(lps) == 1 else None
-        ok = am is not None
-        if ok:
-            cur = _resolve(ctx, am.cur)
-            bb = ctx.binds.get(am.best[1])
-            init = ctx.term(bb.init) if bb is not None and bb.init is not None else None
-            ok = am.orient_ok and am.best_gets_cur and am.magnitude_ok and is_abs_term(cur) and cur[2] == ("idx", VEC0, am.var) and am.lo == num(1) and am.hi == N0 and \
-                init is not None and is_abs_term(init) and init[2] == ("idx", VEC0, num(0)) and ctx.term(fn["body"]["expr"]) == am.best
-        rep.add(key, rule, ok, fn["body"], am.detail if am else "no arg-max loop", where=loc(fn["body"]))
+        check_norm_inf(rep, pdb, path, "abs-norms/norm_inf/%s" % ("f64" if "Complex" not in path else "Cmplx"))
     # ---- find
     fn = pdb.find(name="find")
     fn = [f for f in fn if f["file"] == "src/vector/functions.rs"]
